@@ -212,6 +212,13 @@ func (c *FnCtx) callStatic(fr *Frame, st *State, callee *ssa.Function, args []SV
 				c.noFrame--
 			}
 		}
+		if sl, ok := at.Underlying().(*types.Slice); ok {
+			if _, isIface := sl.Elem().Underlying().(*types.Interface); isIface {
+				// ...any argument list: every pointer boxed into an interface so far may be among
+				// the elements (rows.Scan(&x), fmt.Sscan(&x), ...)
+				c.havocEscaped(st, ms)
+			}
+		}
 		if _, isIface := at.Underlying().(*types.Interface); isIface {
 			// a pointer travelling inside an interface value (json Decode(v any), Unmarshal(..., &x)):
 			// the dependency may write what it points to
@@ -1349,4 +1356,38 @@ func (c *FnCtx) assumedPre(fr *Frame, lbl string) bool {
 		}
 	}
 	return false
+}
+
+type escapedPtr struct {
+	v SV
+	t types.Type
+}
+
+func (c *FnCtx) havocEscaped(st *State, ms *loopModSet) {
+	for _, ep := range c.escapedPtrs {
+		p, ok := ep.t.Underlying().(*types.Pointer)
+		if !ok {
+			continue
+		}
+		switch sv := ep.v.(type) {
+		case Sc:
+			if structOf(p.Elem()) != nil {
+				c.noFrame++
+				c.havocObject(st, p.Elem(), sv.T, 0)
+				c.noFrame--
+			} else {
+				c.addLoc(ms, "cell$"+typeKey(p.Elem()), p.Elem(), false, 0)
+			}
+		case Ad:
+			if sv.Cell != nil {
+				if _, live := st.cells[*sv.Cell]; live {
+					st.cells[*sv.Cell] = c.freshValue(p.Elem(), "ext$cell")
+				}
+			} else if sv.Loc != nil {
+				c.noFrame++
+				c.havocLoc(st, sv.Loc, 0)
+				c.noFrame--
+			}
+		}
+	}
 }
